@@ -28,3 +28,56 @@ Theorem T01f_judge_sound : forall v y relbits x,
   exists r, x = XR r /\ (Rabs (D2R y - r) <= (Rabs (D2R y) + 1) * powerRZ 2 relbits)%R.
 Proof. exact judge_agree_sound. Qed.
 Print Assumptions T01f_judge_sound.
+
+From BV Require Import Model.IdMgr Model.Sig Proofs.SigP Proofs.SigEvalP.
+
+(* T01a. For every Python object graph (labels = object identity; any sharing) whose
+   ConditionalSum nodes do not reuse one condition OBJECT, what the engine's reader rebuilds
+   from the emitted signature is exactly the index-resolved formula. *)
+Theorem T01a_decode_signature : forall (t : idtable) (l : lexpr) (ls : list line),
+  wf_dag l -> cond_ids_distinct l -> signature t l = Some ls ->
+  exists r : expr, resolve t (erase l) = Some r /\ decode ls = Some r.
+Proof. exact decode_signature. Qed.
+Print Assumptions T01a_decode_signature.
+
+(* ... and the hypothesis on ConditionalSum is necessary (known engine defect): *)
+Theorem T01a_refuted_without_distinct_conditions :
+  ~ (forall (t : idtable) (l : lexpr) (ls : list line),
+       wf_dag l -> signature t l = Some ls ->
+       exists r : expr, resolve t (erase l) = Some r /\ decode ls = Some r).
+Proof. exact decode_signature_needs_cond_ids_distinct. Qed.
+Print Assumptions T01a_refuted_without_distinct_conditions.
+
+Theorem T01a_refuted_value : forall (Phi : R -> R) (en : env),
+  exists (t : idtable) (l : lexpr) (ls : list line) (r : expr),
+    wf_dag l /\ signature t l = Some ls /\ decode ls = Some r /\
+    evalX Phi (erase l) en = XR 5 /\ evalIdx Phi t r en = XR 3.
+Proof. exact condsum_shared_value_refuted. Qed.
+Print Assumptions T01a_refuted_value.
+
+(* T01b. The value the engine computes BY POSITION (class indices into the vectors of free
+   parameters, fixed parameters, row, draws) is the value of the formula BY NAME. *)
+Theorem T01b_engine_value_is_named_value :
+  forall (Phi : R -> R) (t : idtable) (l : lexpr) (ls : list line) (en : env),
+    wf_dag l -> cond_ids_distinct l -> signature t l = Some ls ->
+    exists r : expr, decode ls = Some r /\ evalIdx Phi t r en = evalX Phi (erase l) en.
+Proof. exact engine_value_is_named_value. Qed.
+Print Assumptions T01b_engine_value_is_named_value.
+
+(* T01c. Sharing one sub-formula between several parents changes nothing: two object graphs
+   of the same formula (any two sharings) give the engine the same tree. *)
+Theorem T01c_sharing_irrelevant : forall (t : idtable) (l1 l2 : lexpr),
+  erase l1 = erase l2 -> wf_dag l1 -> cond_ids_distinct l1 -> wf_dag l2 -> cond_ids_distinct l2 ->
+  engine_tree t l1 = engine_tree t l2.
+Proof. exact sharing_irrelevant. Qed.
+Print Assumptions T01c_sharing_irrelevant.
+
+(* T01d. Evaluating several formulas side by side changes the numbering, not the value. *)
+Theorem T01d_side_by_side_irrelevant :
+  forall (Phi : R -> R) (fs fs' : list expr) (cols : list string) (t0 t1 : idtable) (e r0 : expr) (en : env),
+    incl fs fs' -> prepare fs cols = Some t0 -> prepare fs' cols = Some t1 ->
+    logit_wf e -> resolve t0 e = Some r0 ->
+    exists r1 : expr, resolve t1 e = Some r1 /\
+      evalIdx Phi t1 r1 en = evalIdx Phi t0 r0 en /\ evalIdx Phi t0 r0 en = evalX Phi e en.
+Proof. exact side_by_side_irrelevant. Qed.
+Print Assumptions T01d_side_by_side_irrelevant.
